@@ -7,8 +7,18 @@ def run(ctx):
     wd = ctx.wd
     vlib.stage_specs(wd)
     drv = vlib.build_harness()
+    # reverse direction (informational): tiny reversible codestreams written by the TLA+ reference encoder
+    nsim = 40 if ctx.quick else 600
+    scn, r = vlib.gen_scenarios(wd, "J2kGen", "J2kGen.cfg", workers=1, simulate="num=%d" % nsim, timeout=7200,
+                                extra=["-seed", str(4000 + ctx.seed), "-depth", "10"])
+    ctx.mc_states += r["states"]; ctx.mc_transitions += r["states"]
+    ctx.mc_runs.append({"module": "J2kGen", "cfg": "simulate", "generated": r["states"], "streams": len(scn)})
+    scnf = os.path.join(wd, "j2kgen.ndjson")
+    with open(scnf, "w") as f:
+        for s in scn:
+            f.write(json.dumps(s) + "\n")
     trace = os.path.join(wd, "trace.ndjson")
-    args = ["c16", "--out", trace, "--seed", str(ctx.seed)] + (["--n", "120", "--maxdim", "40"] if ctx.quick else ["--n", "1500", "--maxdim", "96", "--big"])
+    args = ["c16", "--scn", scnf, "--out", trace, "--seed", str(ctx.seed)] + (["--n", "120", "--maxdim", "40"] if ctx.quick else ["--n", "1500", "--maxdim", "96", "--big"])
     out = vlib.run_driver(drv, args, env=ctx.env())
     stats = dict(kv.split("=") for kv in out.strip().split()[1:])
     shards = vlib.shard_trace(trace, wd, vlib.NCPU, max_bytes=4 << 20)
@@ -26,7 +36,7 @@ def run(ctx):
                 e["stream"] = e["stream"][:64] + ["..."]
                 samples.append(e)
     val["accepted_scenarios"] = val["accepted"]
-    pk = {"parsed": 0, "skipped": 0, "unparsed": 0}
+    pk = {"parsed": 0, "skipped": 0, "unparsed": 0, "ragree": 0, "rdiffer": 0}
     for i in val["infos"]:
         if i.startswith("pk "):
             for kv in i.split()[1:]:
@@ -46,4 +56,7 @@ def run(ctx):
              "components, precision, lossless, HT, tiled, layered, progression)",
         assumptions=["spec/Markers.tla is a faithful transcription of T.81 Annex B, T.87 Annex C, T.800 Annex A marker syntax",
                      "the walkers check framing and header fields; the entropy-coded payload is only checked for marker codes"],
-        extra={"driver_stats": stats, "packet_reader": pk}, distinct=len(classes))
+        extra={"driver_stats": stats, "packet_reader": {k: pk[k] for k in ("parsed", "skipped", "unparsed")},
+               "reference_encoder_streams": {"library_decodes_exactly": pk["ragree"], "differs": pk["rdiffer"],
+                                             "samples": [i for i in val["infos"] if i.startswith("library decoder does not")][:3]}},
+        distinct=len(classes))
